@@ -62,6 +62,10 @@ type Scenario struct {
 	NoDedup  bool
 	// Prefix is a fixed list of ops applied before exploration starts.
 	Prefix []h.Op
+	// KeyExtra, when set, contributes to the dedup key: the part of the
+	// *history* (not of the container state) that a monitor of this scenario
+	// depends on, so that two paths are merged only if that agrees too.
+	KeyExtra func(r *h.Run) string
 }
 
 type use struct{ scopes, provides, decorates, invokes, others, rejected int }
@@ -160,6 +164,9 @@ func (sc *Scenario) Key(r *h.Run) string {
 	}
 	sort.Strings(ex)
 	fmt.Fprintf(&b, "E %v\nU %+v\n", ex, sc.usage(r))
+	if sc.KeyExtra != nil {
+		fmt.Fprintf(&b, "X %s\n", sc.KeyExtra(r))
+	}
 	sum := sha256.Sum256([]byte(b.String()))
 	return hex.EncodeToString(sum[:12])
 }
